@@ -236,7 +236,7 @@ def log4(ctx):
         ctx.missing('append', 'no API body writes AppendRecords')
 
 
-@rule('LOG5', ['C01', 'C02'], floor=3, template='must-flow')
+@rule('LOG5', ['C01', 'C02', 'C07'], floor=3, template='must-flow')
 def log5(ctx):
     """The reader hands its exact position (block start + in-block cursor) to the writer."""
     n = 0
